@@ -655,3 +655,8 @@ def r124(ctx, rule='R1.24'):
         n += len(checks)
         ctx.ob(rule, 'writer.%s:integer-cast-of-object-values-verified' % q, len(checks) >= 1,
                'object values cast with astype(int*) without comparing back: 3.5 becomes 3', wr.loc(f))
+        for x in checks:
+            partial = [y for y in ast.walk(x.test) if isinstance(y, ast.Subscript) or (isinstance(y, ast.Attribute) and y.attr in ('iloc', 'head', 'tail'))]
+            ctx.ob(rule, 'writer.%s:every-value-of-the-cast-is-compared' % q, not partial,
+                   '`%s` looks at part of the values only; the guess that picked the integer encoding is not made on append nor '
+                   'for later row groups' % norm(x.test)[:100], wr.loc(x))
